@@ -232,7 +232,12 @@ func (e *Engine) addContractSet(cs *ContractSet, p *packages.Package) error {
 		k := pp + "." + ow.TypeName + "." + ow.Field
 		e.onwrites[k] = append(e.onwrites[k], ow)
 	}
-	e.onsends = append(e.onsends, cs.OnSends...)
+	for _, os := range cs.OnSends {
+		if p != nil {
+			os.DefPkg = p.PkgPath
+		}
+		e.onsends = append(e.onsends, os)
+	}
 	for _, k := range cs.FuncOrd {
 		fc := cs.Funcs[k]
 		full := k
